@@ -205,6 +205,17 @@ func normalizeObject(s *gen.Shape, v reflect.Value, env *gen.Env, depth int) any
 		if p.EmptyDef && fv.IsZero() {
 			continue // documented identification: the empty value of such a property is absence
 		}
+		if k := derefKind(p.T, env); k == gen.KInt || k == gen.KIntEnum {
+			// an integer property may be mapped to any Go integer field; its value is the number
+			switch fv.Kind() {
+			case reflect.Int, reflect.Int8, reflect.Int16, reflect.Int32:
+				fv = reflect.ValueOf(fv.Int())
+			case reflect.Uint, reflect.Uint8, reflect.Uint16, reflect.Uint32, reflect.Uint64:
+				if fv.Uint() <= 1<<63-1 {
+					fv = reflect.ValueOf(int64(fv.Uint()))
+				}
+			}
+		}
 		out[p.Name] = normalize(p.T, fv, env, depth+1)
 	}
 	return out
